@@ -35,6 +35,22 @@ def _snapshot(g, T=int):
 
 
 def run_impl(case, d):
+    import os
+    # every third case runs with the documented strict negative-weight option (a causally consistent trace has no negative weight, so
+    # the analysis must behave the same; the what-if weights stay the user's in either mode)
+    strict = case.get("case_no", 0) % 3 == 2
+    if strict:
+        os.environ["CRITICAL_PATH_STRICT_NEGATIVE_WEIGHT_CHECKS"] = "1"
+    try:
+        res = _run_impl(case, d)
+    finally:
+        os.environ.pop("CRITICAL_PATH_STRICT_NEGATIVE_WEIGHT_CHECKS", None)
+    if isinstance(res, dict):
+        res["strict"] = strict
+    return res
+
+
+def _run_impl(case, d):
     res, ta, g = cp.run_cp(case, d, zero_weight_env=False)
     if g is None or "graph" not in res:
         return res
